@@ -82,6 +82,7 @@ type ownAnalysis struct {
 	writes   []writeEffect
 	userCall []ssa.Instruction
 	unknown  []string
+	iterOf   map[ssa.Value]ssa.Value // slices.Backward(x)/All/Values result -> x
 	funcs    []*ssa.Function
 	changed  bool
 }
@@ -581,6 +582,10 @@ func (a *ownAnalysis) doCall(f *ssa.Function, ci ssa.CallInstruction) {
 		}
 		return
 	}
+	if src, ok := a.iterOf[com.Value]; ok && len(com.Args) == 1 {
+		a.callFuncValue(com.Args[0], a.contentsOf(a.ptOf(src)))
+		return
+	}
 	var callees []*ssa.Function
 	if sc := com.StaticCallee(); sc != nil {
 		callees = []*ssa.Function{sc}
@@ -635,6 +640,45 @@ func (a *ownAnalysis) external(f *ssa.Function, ci ssa.CallInstruction, callee *
 		a.writes = append(a.writes, writeEffect{ci, f, com.Args[0], "sort/reverse of"})
 		if len(com.Args) > 1 {
 			a.callFuncValue(com.Args[1], a.contentsOf(a.ptOf(com.Args[0])))
+		}
+	case pkg == "slices" && (name == "IndexFunc" || name == "ContainsFunc" || name == "Index" || name == "Contains" || name == "Equal" || name == "IsSortedFunc" || name == "BinarySearch" || name == "BinarySearchFunc"):
+		// readers: the elements are handed to the callback (if any); nothing is written, nothing pointer-carrying returned
+		if strings.HasSuffix(name, "Func") && len(com.Args) > 1 {
+			a.callFuncValue(com.Args[len(com.Args)-1], a.contentsOf(a.ptOf(com.Args[0])))
+		}
+	case pkg == "slices" && (name == "Compact" || name == "CompactFunc" || name == "Delete" || name == "DeleteFunc"):
+		// in place: elements are moved down inside the argument's backing array (and the tail is cleared); the result
+		// is a prefix of the argument
+		a.writes = append(a.writes, writeEffect{ci, f, com.Args[0], "in-place compaction (slices." + name + ") of"})
+		if res, ok := ci.(ssa.Value); ok {
+			a.include(res, a.ptOf(com.Args[0]))
+		}
+		if strings.HasSuffix(name, "Func") && len(com.Args) > 1 {
+			a.callFuncValue(com.Args[len(com.Args)-1], a.contentsOf(a.ptOf(com.Args[0])))
+		}
+	case pkg == "slices" && (name == "Backward" || name == "All" || name == "Values"):
+		// an iterator over the slice: calling it hands the elements to the loop body (the yield closure); remembered
+		// here, bound where the iterator value is called
+		if res, ok := ci.(ssa.Value); ok {
+			if a.iterOf == nil {
+				a.iterOf = map[ssa.Value]ssa.Value{}
+			}
+			a.iterOf[res] = com.Args[0]
+		}
+	case pkg == "slices" && (name == "Clone" || name == "Concat"):
+		if res, ok := ci.(ssa.Value); ok {
+			a.include(res, one(a.site(res, "slices."+name, sliceElem(res.Type()))))
+			for _, x := range com.Args {
+				a.addContents(a.ptOf(res), a.contentsOf(a.ptOf(x)))
+			}
+		}
+	case pkg == "slices" && (name == "Clip" || name == "Grow"):
+		if res, ok := ci.(ssa.Value); ok {
+			a.include(res, a.ptOf(com.Args[0]))
+			if name == "Grow" {
+				a.include(res, one(a.site(res, "slices.Grow", sliceElem(res.Type()))))
+				a.addContents(a.ptOf(res), a.contentsOf(a.ptOf(com.Args[0])))
+			}
 		}
 	case pureExternalPkgs[pkg]:
 		// value-only APIs: no effect on memory reachable from our slices/pointers
